@@ -3,3 +3,5 @@ import SmtpV.Props.C06
 #print axioms SmtpV.Props.C06.C06_oversize_never_complete
 #print axioms SmtpV.Props.C06.C06_transparent
 #print axioms SmtpV.Props.data_monitor_accepts_model
+#print axioms SmtpV.Props.C06.C06_chunk_over_limit
+#print axioms SmtpV.Props.C06.C06_declared_size_refused
